@@ -80,6 +80,11 @@ func memproxyProbe(rep *Report, bin string) {
 		}
 		key := []byte("shared-key")
 		setup := dial(p)
+		if setup == nil {
+			rep.Distribution["memproxy-binary-probe-skipped"]++
+			stop()
+			continue
+		}
 		if out, e := setup.Feed(Command{Kind: "set", Key: key, Flags: 1, Data: []byte("v0"), Opaque: 1}.Encode("bin"), 3*time.Second); e != "eof" || len(out) < 24 || out[6] != 0 || out[7] != 0 {
 			fail("memproxy-setup", fmt.Sprintf("a plain set on the main port was not acknowledged (%s, %s)", e, canonN(64, out)))
 			stop()
@@ -97,6 +102,12 @@ func memproxyProbe(rep *Report, bin string) {
 			return nil
 		}
 		a, b := dial(p), dial(bp)
+		if a == nil || b == nil {
+			rep.Distribution["memproxy-binary-probe-skipped"]++
+			close(release)
+			stop()
+			continue
+		}
 		type res struct {
 			out []byte
 			e   string
